@@ -510,6 +510,17 @@ def _check_nonzero(den):
 class SInt(SReal):
     is_int = True
 
+    def __hash__(self):
+        # a bounded integer input used as a dict / set key: solver-checked case split over its range, so the
+        # container sees a concrete hash on every path (equal keys then compare equal under the path condition)
+        rng = getattr(self, "_range", None)
+        if rng is None or rng[1] - rng[0] > 64:
+            raise TypeError("unhashable type: 'SInt'")
+        for v in range(rng[0], rng[1]):
+            if bool(self == v):
+                return hash(v)
+        return hash(rng[1])
+
     def _bin(self, o, f):
         if isinstance(o, SInt) or (isinstance(o, int) and not isinstance(o, bool)):
             oe = o.e if isinstance(o, SInt) else z3.IntVal(o)
@@ -661,7 +672,10 @@ def integer(name, lo=None, hi=None):
         CTX.add(v >= lo)
     if hi is not None:
         CTX.add(v <= hi)
-    return SInt(v)
+    out = SInt(v)
+    if lo is not None and hi is not None:
+        out._range = (int(lo), int(hi))
+    return out
 
 
 def choose(name, options):
